@@ -276,6 +276,18 @@ func classify(c *Case, o *outcome, v *harness.Verdict) {
 		v.Class("start:0")
 	case f.firstSTH >= 0 && c.Start > f.firstSTH:
 		v.Class("start:beyond-tree")
+		short := false
+		for _, st := range c.Steps {
+			if st.Size > f.firstSTH && st.Size <= c.Start {
+				short = true
+			}
+		}
+		if short && c.Continuous && c.finalSize() > c.Start {
+			v.Class("start:approached-in-short-steps")
+			if o.stopIssued && o.stopAt >= c.lastGrowth()+c.settle() {
+				v.Class("start:approached-in-short-steps-and-passed-before-stop")
+			}
+		}
 	case f.firstSTH >= 0 && c.Start == f.firstSTH:
 		v.Class("start:at-tree-size")
 	default:
